@@ -121,6 +121,8 @@ def cases(ctx):
                 "ops": gen_history(rng, budget, hw)}
         if rng.random() < 0.25:
             case["prelude"] = rng.randrange(0, budget + 1)
+        if rng.random() < 0.6:
+            case["bell_seed"] = rng.randrange(2**31)
         yield case
 
 
@@ -133,13 +135,19 @@ def run_case(ctx, case):
     from netqasm.sdk.qubit import FutureQubit, Qubit
     ops = case["ops"]
     plan = []
+    import random as _random
+    brng = _random.Random(case["bell_seed"]) if case.get("bell_seed") is not None else None
+
+    def bells(n):
+        # the link layer reports whichever Bell state was generated; the SDK corrects on the receiving side
+        return [brng.randrange(4) for _ in range(n)] if brng is not None else None
     for o in ops:
         if o["op"] in ("epr_keep", "epr_seq", "epr_context"):
-            plan.append(PlannedRequest(o["role"], "K", o["n"]))
+            plan.append(PlannedRequest(o["role"], "K", o["n"], bells=bells(o["n"])))
         elif o["op"] == "epr_retry":
             for attempt in range(o["retries"] + 1):
                 slow = attempt < o["retries"]
-                plan.append(PlannedRequest(o["role"], "K", o["n"],
+                plan.append(PlannedRequest(o["role"], "K", o["n"], bells=bells(o["n"]),
                                            fields=(lambda k, name, slow=slow: (60000 if slow else 100) if name == "goodness" else None)))
     es = EPRSocket("bob")
     link = LinkModel(plan, partners=False)
